@@ -85,6 +85,8 @@ OnSend(mm, e, meta) ==
                 \cup (IF single /\ q.sends > 0 /\ ~q.net /\ e.t < q.last + meta.T
                       THEN {"C05.FullTimeout"} ELSE {})
                 \cup (IF q.expect.kind # "none" THEN {"C04.SendAfterDecision"} ELSE {})
+                \* C07: while the head of an answer is buffered, its second piece has one timeout to arrive
+                \cup (IF single /\ q.hasBuf /\ ~q.dirty /\ e.t < q.bufT + meta.T THEN {"C07.WaitForSecondPiece"} ELSE {})
        IN R([mm EXCEPT !.rq[r] = q2, !.lastReq = r, !.lastTx = tx], v)
 
 OnDlv(mm, e, meta) ==
